@@ -347,6 +347,7 @@ def fresh_module_state():
     process state like the class-level ones: restored to what they held when the harness first
     saw them.  The loader tables have their own reset (fresh_loader_state)."""
     import sys as _sys
+    import types as _types
     for modname, mod in list(_sys.modules.items()):
         if mod is None or not (modname == "odml" or modname.startswith("odml.")):
             continue
@@ -355,6 +356,20 @@ def fresh_module_state():
                 try:
                     if str(getattr(val, "__module__", "")).startswith("odml"):
                         val.cache_clear()   # a memoised function of the package is process state too
+                except Exception:
+                    pass
+                continue
+            if not name.startswith("__") and isinstance(val, _types.FunctionType):
+                # attributes hung on a function of the package (a tag, a counter) are process
+                # state as well
+                try:
+                    if str(val.__module__).startswith("odml"):
+                        fkey = (modname, name, "__dict__")
+                        if fkey not in _MODULE_IMPORT_STATE:
+                            _MODULE_IMPORT_STATE[fkey] = dict(val.__dict__)
+                        elif val.__dict__ != _MODULE_IMPORT_STATE[fkey]:
+                            val.__dict__.clear()
+                            val.__dict__.update(_MODULE_IMPORT_STATE[fkey])
                 except Exception:
                     pass
                 continue
